@@ -152,8 +152,6 @@ def run(ctx):
       # a raise on the argument's *form* (regex over the name) cannot fire for names that were stored before
       if not reads and not self_state:
         continue
-      if f is cc:
-        continue
       path = prog.path_to(cc.qual, q)
       ctx.fail('C20.total', con,
                'clear_config reaches `%s`, whose rejection `if %s: raise` reads configuration state (%s): for some histories '
